@@ -263,10 +263,10 @@ def main():
             "name": "goblcheck",
             "path": "/verif/checker",
             "serves_properties": sorted(CLAIMS),
-            "kind_free_text": "custom Go static analyser (go/packages + go/types + go/cfg + go/ssa): who-may-call, must-pass-through / branch-fact dataflow, field coverage, ownership, table folding; re-loads /repo's working tree on every run, executes nothing from it",
+            "kind_free_text": "custom Go static analyser (go/packages + go/types + go/cfg): who-may-call, must-pass-through / branch-fact dataflow, field coverage, ownership, table folding, finite abstract evaluation; every property is decided on the declarations as written and, where something is reported, on a normalised view (same-package helpers inlined, shapes normalised) of the same program; re-loads /repo's working tree on every run, executes nothing from it",
         }],
         "checks": checks,
-        "notes": "All checks are static: they type-check /repo's current working tree and decide rule instances; no test, harness or solver is run. Genuine defects found are repaired by 'fix:' commits in /repo (listed in known_findings.json as fixed) or listed as known findings. fix commits so far: " + ", ".join(c[:7] for c in fix_commits),
+        "notes": "All checks are static: they type-check /repo's current working tree and decide rule instances; no test, harness or solver is run. Regression corpora kept with the machinery: /verif/seeded (changes that break a property; tools/run_seeds.sh expects each to be reported) and /verif/refactors (behaviour-preserving variants; tools/run_refactors.sh expects all 20 checks to stay quiet on each). Genuine defects found are repaired by 'fix:' commits in /repo (listed in known_findings.json as fixed) or listed as known findings. fix commits so far: " + ", ".join(c[:7] for c in fix_commits),
         "not_applicable": na,
     }
     with open(os.path.join(HERE, "MANIFEST.json"), "w") as f:
